@@ -26,6 +26,8 @@
                                                        _parse_numeric_token -> idx ; ymd ; hour minute second microsecond
     pgen.loop <info> <year> <century> <fuzzy> <tok;tok;…> <classes>      the whole `while` loop of parser._parse from i = 0
         -> tokens ; weekday hour minute second microsecond ampm tzname tzoffset ; ymd ; skipped
+    pgen.parse <info> <year> <century> <dayfirst -1|0|1> <yearfirst> <fuzzy> <fuzzy_with_tokens> <cps> <classes>     _parse
+        -> N | year month day weekday hour minute second microsecond ampm tzname tzoffset cs ; tokens|-
     pgen.naive <year|-> <month|-> <day|-> <weekday|-> <hour|-> <minute|-> <second|-> <microsecond|-> <default [7 ints]>
                                                        _build_naive -> Y M D h m s us
     pgen.step <info> <year> <century> <fuzzy> <i> <tok;tok;…> <classes> <ymd> <hour|-> <ampm|-> <tzname|N> <tzoffset|->
@@ -199,6 +201,16 @@ def handleFn (op : String) (args : List String) : Option String :=
         let rs := r.2.2.1
         s!"{";".intercalate (r.1.map showCps)} ; {showON rs.weekday} {showON rs.hour} {showON rs.minute} {showON rs.second} {showON rs.microsecond} {showON rs.ampm} {showOptName rs.tzname} {showOI rs.tzoffset} ; {showYmd r.2.2.2.1} ; {",".intercalate (r.2.2.2.2.map toString)}")
       (Gen.P.parseLoop (l.length + 1) cls i l 0 l.length {} {} [] (fz == "1")))
+  | "pgen.parse", [info, y, c, df, yf, fz, fwt, cps, classes] => withInfo info y c fun i => do
+    let (cls, t) ← tokCls? cps classes
+    let df ← df.toInt?; let yf ← yf.toInt?
+    let ob (k : Int) : Option Bool := if k < 0 then none else some (k != 0)
+    some (showR (fun r : Option (Res × Option (List Token)) => match r with
+        | none => "N"
+        | some (rs, tk) =>
+          s!"{showON rs.year} {showON rs.month} {showON rs.day} {showON rs.weekday} {showON rs.hour} {showON rs.minute} {showON rs.second} {showON rs.microsecond} {showON rs.ampm} {showOptName rs.tzname} {showOI rs.tzoffset} {showB rs.centurySpecified} ; " ++
+          (match tk with | none => "-" | some l => showToks l))
+      (Gen.P.parse (t.length + 1) cls i t (ob df) (ob yf) (fz == "1") (fwt == "1")))
   | "pgen.assigntz", [n0, n1, name] => do
     let a ← optName? n0; let b ← optName? n1; let n ← optName? name
     some (showR (fun d : PPy.FoldDt => toString d.fold) (Gen.P.assignTzname dflt { n0 := a, n1 := b } n))
